@@ -33,6 +33,11 @@ pub enum Beh {
     SilentReset(u64),
     /// the real server, healthy for the rest of the run
     Healthy,
+    /// complete the handshake, run a live multiplexor (which answers Pings and acknowledges stream
+    /// requests) for d ms, then the path dies without a word (`blackhole_conn`): nothing is
+    /// delivered in either direction any more, nothing fails. Only the client's keepalive (or a
+    /// stream request timing out) can tell.
+    GoSilent(u64),
 }
 #[derive(Serialize, Deserialize, Clone, Debug)]
 pub struct Local {
@@ -53,6 +58,9 @@ pub struct C19Plan {
     pub hs_to_s: u64,
     pub ch_to_s: u64,
     pub locals: Vec<Local>,
+    /// the client's keepalive interval and timeout in ms (0 = none), timed on the simulated clock
+    #[serde(default)]
+    pub keepalive_ms: [u64; 2],
 }
 
 #[derive(Clone, Debug)]
@@ -60,6 +68,8 @@ struct Rec {
     at: Duration,
     fail: Option<Duration>,
     completed: bool,
+    /// GoSilent: when the path died
+    silent_from: Option<Duration>,
 }
 const PORT: u16 = 8080;
 
@@ -158,7 +168,7 @@ pub fn run(plan: &C19Plan, sched: &Sched) -> Outcome {
                 let mut missing = None;
                 // the scripted server must be in place before the client's first attempt
                 tokio::time::sleep(ms(1)).await;
-                let client = spawn_client(&ClientCfg { server: format!("ws://127.0.0.1:{PORT}/ws"), remotes: vec!["127.0.0.1:7000:127.0.0.1:9000".into()], max_retry_count: plan.max_count, max_retry_interval: plan.max_iv, handshake_timeout_s: plan.hs_to_s, channel_timeout_s: plan.ch_to_s, psk: None });
+                let client = spawn_client(&ClientCfg { server: format!("ws://127.0.0.1:{PORT}/ws"), remotes: vec!["127.0.0.1:7000:127.0.0.1:9000".into()], max_retry_count: plan.max_count, max_retry_interval: plan.max_iv, handshake_timeout_s: plan.hs_to_s, channel_timeout_s: plan.ch_to_s, psk: None, keepalive_ms: plan.keepalive_ms });
                 let mut seen = 0usize;
                 let mut held: Vec<Box<dyn std::any::Any>> = vec![];
                 'script: for (phase, b) in plan.script.iter().enumerate() {
@@ -174,12 +184,12 @@ pub fn run(plan: &C19Plan, sched: &Sched) -> Outcome {
                     start_locals(phase);
                     let _ = ok;
                     match b {
-                        Beh::Refuse => recs.push(Rec { at, fail: Some(at), completed: false }),
+                        Beh::Refuse => recs.push(Rec { at, fail: Some(at), completed: false, silent_from: None }),
                         Beh::Stall => {
                             let l = listener.expect("listener");
                             let (s, _) = l.accept().await.expect("accept");
                             drop(l);
-                            recs.push(Rec { at, fail: Some(at + hs_to), completed: false });
+                            recs.push(Rec { at, fail: Some(at + hs_to), completed: false, silent_from: None });
                             // keep the socket open past the client's handshake timeout
                             tokio::time::sleep(hs_to + ms(1)).await;
                             drop(s);
@@ -197,7 +207,7 @@ pub fn run(plan: &C19Plan, sched: &Sched) -> Outcome {
                                 }
                             }
                             s.write_all(b"HTTP/1.1 403 Forbidden\r\ncontent-length: 0\r\n\r\n").await.ok();
-                            recs.push(Rec { at, fail: Some(now()), completed: false });
+                            recs.push(Rec { at, fail: Some(now()), completed: false, silent_from: None });
                             tokio::time::sleep(ms(5)).await;
                             held.push(Box::new(s));
                         }
@@ -211,7 +221,7 @@ pub fn run(plan: &C19Plan, sched: &Sched) -> Outcome {
                                 tokio::time::sleep(ms(*d)).await;
                                 let ft = now();
                                 drop(mux);
-                                recs.push(Rec { at, fail: Some(ft), completed: true });
+                                recs.push(Rec { at, fail: Some(ft), completed: true, silent_from: None });
                                 // let the Close exchange finish
                                 tokio::time::sleep(ms(1)).await;
                             } else {
@@ -220,7 +230,7 @@ pub fn run(plan: &C19Plan, sched: &Sched) -> Outcome {
                                 tokio::time::sleep(ms(*d)).await;
                                 let ft = now();
                                 penguin_simnet::with(|w| w.reset_conn(conn));
-                                recs.push(Rec { at, fail: Some(ft), completed: true });
+                                recs.push(Rec { at, fail: Some(ft), completed: true, silent_from: None });
                                 tokio::time::sleep(ms(1)).await;
                                 drop(mux);
                             }
@@ -249,17 +259,17 @@ pub fn run(plan: &C19Plan, sched: &Sched) -> Outcome {
                             let ft = now();
                             if gone {
                                 // the client let go first (nothing this script intends): nothing more to judge
-                                recs.push(Rec { at, fail: None, completed: true });
+                                recs.push(Rec { at, fail: None, completed: true, silent_from: None });
                                 break 'script;
                             }
                             if matches!(b, Beh::SilentClose(_)) {
                                 ws.send(tokio_tungstenite::tungstenite::Message::Close(None)).await.ok();
-                                recs.push(Rec { at, fail: Some(ft), completed: true });
+                                recs.push(Rec { at, fail: Some(ft), completed: true, silent_from: None });
                                 // let the Close exchange finish
                                 let _ = tokio::time::timeout(ms(1), async { while let Some(Ok(_)) = ws.next().await {} }).await;
                             } else {
                                 penguin_simnet::with(|w| w.reset_conn(conn));
-                                recs.push(Rec { at, fail: Some(ft), completed: true });
+                                recs.push(Rec { at, fail: Some(ft), completed: true, silent_from: None });
                                 tokio::time::sleep(ms(1)).await;
                             }
                             drop(ws);
@@ -283,17 +293,47 @@ pub fn run(plan: &C19Plan, sched: &Sched) -> Outcome {
                             .await;
                             if res.is_err() {
                                 // the client never let go (no stream request was pending): nothing more to judge
-                                recs.push(Rec { at, fail: None, completed: true });
+                                recs.push(Rec { at, fail: None, completed: true, silent_from: None });
                                 held.push(Box::new(raw));
                                 break 'script;
                             }
-                            recs.push(Rec { at, fail: Some(now()), completed: true });
+                            recs.push(Rec { at, fail: Some(now()), completed: true, silent_from: None });
+                        }
+                        Beh::GoSilent(d) => {
+                            let l = listener.expect("listener");
+                            let (s, _) = l.accept().await.expect("accept");
+                            drop(l);
+                            let ws = tokio_tungstenite::accept_hdr_async(s, ws_cb).await.expect("ws accept");
+                            let mux = penguin_mux::Multiplexor::new(ws);
+                            tokio::time::sleep(ms(*d)).await;
+                            let sf = now();
+                            penguin_simnet::with(|w| w.blackhole_conn(conn));
+                            // the failure is the moment the client lets go of its socket
+                            let limit = sf + ms(plan.keepalive_ms[0] + plan.keepalive_ms[1].max(plan.keepalive_ms[0])) + Duration::from_secs(plan.ch_to_s) + patience;
+                            let gave_up = loop {
+                                if let Some(t) = penguin_simnet::with(|w| w.drops.iter().find(|x| x.0 == conn).map(|x| x.1)) {
+                                    break Some(t);
+                                }
+                                if now() > limit {
+                                    break None;
+                                }
+                                tokio::time::sleep(ms(5)).await;
+                            };
+                            held.push(Box::new(mux));
+                            match gave_up {
+                                Some(ft) => recs.push(Rec { at, fail: Some(ft), completed: true, silent_from: Some(sf) }),
+                                None => {
+                                    // the client never let go (no keepalive timeout configured, nothing outstanding): nothing more to judge
+                                    recs.push(Rec { at, fail: None, completed: true, silent_from: Some(sf) });
+                                    break 'script;
+                                }
+                            }
                         }
                         Beh::Healthy => {
                             let l = listener.expect("listener");
                             let state = State::new().await.expect("state");
                             tokio::spawn(run_listener(l, None, state));
-                            recs.push(Rec { at, fail: None, completed: true });
+                            recs.push(Rec { at, fail: None, completed: true, silent_from: None });
                             // serve what is parked and what still arrives
                             tokio::time::sleep(Duration::from_secs(120)).await;
                             break 'script;
@@ -341,11 +381,11 @@ pub fn run(plan: &C19Plan, sched: &Sched) -> Outcome {
 fn judge(plan: &C19Plan, recs: Vec<Rec>, cres: Option<String>, attempts: Vec<(Duration, bool, u64)>, locals: Vec<(usize, Duration, String)>, arrivals: Vec<(usize, Duration)>, missing: Option<usize>, digest: u64, events: u64, counters: Vec<(String, u64)>, horizon: Duration) -> Outcome {
     let mut o = Outcome { digest: digest ^ events, steps: events, sim_ms: horizon.as_millis() as u64, ..Default::default() };
     for (k, v) in counters {
-        if k.starts_with("tcp-re") {
+        if k.starts_with("tcp-re") || k == "tcp-blackhole" {
             o.probe(&format!("fault:{k}"), v);
         }
     }
-    let desc = format!("script={:?} max_retry_count={} max_retry_interval={}ms handshake_timeout={}s channel_timeout={}s attempts={:?} client={cres:?}", plan.script, plan.max_count, plan.max_iv, plan.hs_to_s, plan.ch_to_s, attempts.iter().map(|a| a.0).collect::<Vec<_>>());
+    let desc = format!("script={:?} max_retry_count={} max_retry_interval={}ms handshake_timeout={}s channel_timeout={}s keepalive={:?}ms attempts={:?} client={cres:?}", plan.script, plan.max_count, plan.max_iv, plan.hs_to_s, plan.ch_to_s, plan.keepalive_ms, attempts.iter().map(|a| a.0).collect::<Vec<_>>());
     o.note = desc.clone();
     if cres.as_deref().is_some_and(|c| c.contains("panicked")) {
         o.violate("C19:client-panicked", format!("{desc}"));
@@ -377,6 +417,39 @@ fn judge(plan: &C19Plan, recs: Vec<Rec>, cres: Option<String>, attempts: Vec<(Du
                     }
                 }
             }
+        } else if let (Beh::GoSilent(_), Some(sf)) = (&plan.script[i], r.silent_from) {
+            // The path died at `sf`. No latency in this world: the client's task started at `r.at`, its
+            // Pings leave at r.at + k I and are answered at once while the path lives. The keepalive
+            // must give the connection up no earlier than T and no later than T + I after the last
+            // Pong - unless a stream request made during the silence times out first.
+            let (iv, t_req) = (plan.keepalive_ms[0], plan.keepalive_ms[1]);
+            let in_flight: Option<Duration> = arrivals.iter().filter(|(li, t)| *t > sf && plan.locals.get(*li).is_some_and(|l| l.phase == i)).map(|(_, t)| *t).min();
+            let req_to = in_flight.map(|a| a + Duration::from_secs(plan.ch_to_s));
+            if in_flight.is_some() && r.fail.is_some() {
+                o.probe("request-in-flight-at-loss", 1);
+            }
+            let window = if iv > 0 && t_req > 0 {
+                let t = t_req.max(iv);
+                let j = (sf.saturating_sub(r.at).as_millis() as u64) / iv;
+                let lp = r.at + ms(j * iv);
+                Some((lp + ms(t), lp + ms(t + iv)))
+            } else {
+                None
+            };
+            let ok = match (r.fail, window, req_to) {
+                (None, None, None) => true,
+                (None, _, _) => false,
+                (Some(ft), Some((lo, hi)), None) => lo <= ft && ft <= hi,
+                (Some(ft), None, Some(a)) => ft == a,
+                (Some(ft), Some((lo, hi)), Some(a)) => (a < lo && ft == a) || (a >= lo && lo <= ft && ft <= hi.min(a)),
+                (Some(_), None, None) => false,
+            };
+            if !ok {
+                o.violate("C19:silent-peer-detection", format!("phase {i}: the path to the server died at {sf:?} (connection made at {:?}, keepalive interval {iv} ms, timeout {t_req} ms, stream request in flight from {in_flight:?}, channel timeout {} s): the connection should have been given up within {window:?} (keepalive) or at {req_to:?} (request timeout), observed: {:?}; {desc}", r.at, plan.ch_to_s, r.fail));
+            } else if r.fail.is_some() && window.is_some_and(|(lo, _)| req_to.is_none_or(|a| a >= lo)) {
+                o.probe("lost-by-keepalive-expiry", 1);
+            }
+            served_upto = i + 1;
         } else if matches!(plan.script[i], Beh::SilentClose(_) | Beh::SilentReset(_)) {
             // nothing was served: what was queued or in flight stays parked
             if arrivals.iter().any(|(li, t)| plan.locals.get(*li).is_some_and(|l| l.phase >= served_upto) && r.fail.is_some_and(|ft| *t < ft)) {
@@ -430,6 +503,7 @@ fn judge(plan: &C19Plan, recs: Vec<Rec>, cres: Option<String>, attempts: Vec<(Du
                     let kind = match plan.script[i] {
                         Beh::CloseAfter(_) | Beh::SilentClose(_) => "orderly-close",
                         Beh::ResetAfter(_) | Beh::SilentReset(_) => "reset",
+                        Beh::GoSilent(_) => "silence",
                         _ => "failure",
                     };
                     o.violate(&format!("C19:no-reconnect-after-{kind}"), format!("after failure {i} ({:?}) at {ft:?} a retry was due at {:?} but the client made no further attempt (client: {cres:?}); {desc}", plan.script[i], ft + delay));
